@@ -13,7 +13,7 @@ class C18(ViewsCheck):
             "on the current memory); TLC judges every step with the snapshot semantics TensorMachine!AssignSel (right-hand side evaluated on "
             "the pre-state); non-trivial = write events whose source overlaps the destination")
     assumptions = ["values are small integers, exact in every element type",
-                   "the same view object is not reused across statements in this plan (each statement builds its view)"]
+                   "view-object reuse is exercised as pairs of consecutive assignments through one view object (SliceWrite2)"]
 
     def configs(self, ctx):
         if ctx.tier == "quick":
@@ -21,6 +21,8 @@ class C18(ViewsCheck):
         return ["%s-%s-O2" % (i, s) for i in ALL_ISAS for s in ("14", "17")] + ["%s-14-O2+FASTOR_USE_VECTORISED_EXPR_ASSIGN" % i for i in ("sse2", "avx2", "avx512")]
 
     def nontrivial(self, ev):
+        if ev["e"] == "SliceWrite2":
+            return True
         if ev["e"] != "SliceWrite":
             return False
         rhs = ev["in"].get("rhs", {})
